@@ -333,6 +333,7 @@ const HIST_ARGS: [&str; 26] = [
 ];
 const HIST_CODES: &[u8] = b"LSRVvhkKrcaAdeGgfFmnpPqQMN";
 
+pub fn rand_op_pub(rng: &mut Rng, ops: &mut Vec<Vec<u8>>) { rand_op(rng, ops) }
 fn rand_op(rng: &mut Rng, ops: &mut Vec<Vec<u8>>) {
     let code = *rng.pick(HIST_CODES);
     let mut pl: Vec<Vec<u8>> = vec![];
